@@ -149,6 +149,9 @@ func runC20(c *fw.Ctx) {
 	token := new(int)
 	evalCtx := context.WithValue(context.Background(), c20CtxKey{}, token)
 	idx := 0
+	if c.Shard == 0 {
+		c20OddNames(c)
+	}
 	for _, sg := range sigs {
 		sg := sg
 		fixedN := len(sg.Fixed)
@@ -184,6 +187,50 @@ func runC20(c *fw.Ctx) {
 				c.Distinct("shapes", cfg)
 			}
 		}
+	}
+}
+
+// c20OddNames: registration name = lower-cased Go name with every '_' replaced by '-' (also leading, trailing, doubled).
+func c20OddNames(c *fw.Ctx) {
+	type odd struct {
+		id string
+		fn any
+		pk string
+	}
+	var l []odd
+	for _, s := range binder_nodot.OddNames {
+		l = append(l, odd{s.ID, s.Fn, "nodot"})
+	}
+	for _, s := range binderdot.OddNames {
+		l = append(l, odd{s.ID, s.Fn, "dot"})
+	}
+	for i, o := range l {
+		o := o
+		c.Case(fmt.Sprintf("oddname-%d", i), "call.Call of "+o.id+" (pkg "+o.pk+")", func() {
+			e := env.NewEnv()
+			want := strings.ReplaceAll(strings.ToLower(o.id), "_", "-")
+			p, site, msg, st := fw.Guard(func() { call.Call(e, o.fn) })
+			c.Count("registrations", 1)
+			c.Count("odd_name_registrations", 1)
+			if p {
+				c.Violate(fw.Violation{Key: "registration-panic:odd-name", What: "registration panicked at " + site + ": " + msg, Detail: st})
+				return
+			}
+			if _, err := e.Get(types.Symbol{Val: want}); err != nil {
+				var have []string
+				for _, r := range e.Symbols(nil, "") {
+					if string(r) != "_PACKAGES_" {
+						have = append(have, string(r))
+					}
+				}
+				c.Violate(fw.Violation{Key: "registration-name", What: fmt.Sprintf("Go function %s must be registered as %q; the environment has %v", o.id, want, have)})
+				return
+			}
+			res, err := lisp.EVAL(context.Background(), types.List{Val: []types.MalType{types.Symbol{Val: want}, 5}}, e)
+			if err != nil || res != 5 {
+				c.Violate(fw.Violation{Key: "registration-name", What: fmt.Sprintf("calling %s gives %v / %v", want, res, err)})
+			}
+		})
 	}
 }
 
